@@ -9,6 +9,7 @@ import (
 	"encoding/json"
 	"fmt"
 	"math"
+	"regexp"
 	"strconv"
 	"strings"
 	"time"
@@ -27,19 +28,23 @@ type dv struct {
 	l    []*dv
 	m    []dkv
 }
+
+// keys that are emitted unquoted although YAML resolves them as timestamps
+var dateKey = regexp.MustCompile(`^[0-9]{4}-[0-9]{1,2}-[0-9]{1,2}([Tt][0-9:.+-]+)?$`)
+
 type dkv struct {
 	k string
 	v *dv
 }
 
-func dNull() *dv            { return &dv{kind: 'n'} }
-func dBool(b bool) *dv      { return &dv{kind: 'b', b: b} }
-func dInt(i int64) *dv      { return &dv{kind: 'i', i: i} }
-func dFloat(f float64) *dv  { return &dv{kind: 'f', f: f} }
-func dStr(s string) *dv     { return &dv{kind: 's', s: s} }
-func dTime(s string) *dv    { return &dv{kind: 't', s: s} }
-func dList(l ...*dv) *dv    { return &dv{kind: 'l', l: l} }
-func dMap(m ...dkv) *dv     { return &dv{kind: 'm', m: m} }
+func dNull() *dv           { return &dv{kind: 'n'} }
+func dBool(b bool) *dv     { return &dv{kind: 'b', b: b} }
+func dInt(i int64) *dv     { return &dv{kind: 'i', i: i} }
+func dFloat(f float64) *dv { return &dv{kind: 'f', f: f} }
+func dStr(s string) *dv    { return &dv{kind: 's', s: s} }
+func dTime(s string) *dv   { return &dv{kind: 't', s: s} }
+func dList(l ...*dv) *dv   { return &dv{kind: 'l', l: l} }
+func dMap(m ...dkv) *dv    { return &dv{kind: 'm', m: m} }
 func (d *dv) set(k string, v *dv) {
 	for i := range d.m {
 		if d.m[i].k == k {
@@ -100,7 +105,11 @@ func (d *dv) node(flow bool) *yaml.Node {
 			n.Style = yaml.FlowStyle
 		}
 		for _, e := range d.m {
-			n.Content = append(n.Content, &yaml.Node{Kind: yaml.ScalarNode, Tag: "!!str", Value: e.k}, e.v.node(flow))
+			kn := &yaml.Node{Kind: yaml.ScalarNode, Tag: "!!str", Value: e.k}
+			if dateKey.MatchString(e.k) {
+				kn.Tag = "!!timestamp" // written plain, as a user would write a date-shaped key
+			}
+			n.Content = append(n.Content, kn, e.v.node(flow))
 		}
 		return n
 	}
@@ -364,18 +373,18 @@ func jsonValue(dec *json.Decoder) (sx.S, error) {
 // ---- generator ----
 
 type docgen struct {
-	rng       *sx.Rng
-	marker    int      // unique marker counter for unknown keys/values
-	markers   []string // every marker placed (each must appear exactly once in the output)
-	malformed bool     // inject type errors
-	injected  int
-	strPool   []string
-	depth     int
-	specialKeys bool                     // use keys that look exactly like other YAML types (C09/C08)
-	penvNames []string                   // names of the pipeline env, for step envs to shadow
-	mergeKeys bool                       // allow "<<" as an ordinary key (C08/C09)
-	decorate  func(marker string) string // optional: text appended to every marker (C04: env references)
-	placed    []string                   // decorated markers as placed
+	rng         *sx.Rng
+	marker      int      // unique marker counter for unknown keys/values
+	markers     []string // every marker placed (each must appear exactly once in the output)
+	malformed   bool     // inject type errors
+	injected    int
+	strPool     []string
+	depth       int
+	specialKeys bool                       // use keys that look exactly like other YAML types (C09/C08)
+	penvNames   []string                   // names of the pipeline env, for step envs to shadow
+	mergeKeys   bool                       // allow "<<" as an ordinary key (C08/C09)
+	decorate    func(marker string) string // optional: text appended to every marker (C04: env references)
+	placed      []string                   // decorated markers as placed
 }
 
 var defaultStrPool = []string{
@@ -662,6 +671,13 @@ func (g *docgen) cache() *dv {
 		return dNull()
 	default:
 		m := dMap()
+		if g.rng.Chance(8) {
+			// the mapping spelling of a disabled cache (on its own: a disabled cache keeps nothing else, F12)
+			return dMap(dkv{"disabled", dBool(true)})
+		}
+		if g.rng.Chance(8) {
+			m.set("disabled", dBool(false))
+		}
 		if g.rng.Chance(70) {
 			m.set("paths", sx.Pick(g.rng, []*dv{dList(dStr("p1"), dStr("p2")), dStr("single"), dList()}))
 		}
